@@ -221,3 +221,17 @@ claim("C14",
       "whose accessors raise.",
       "decision-table extraction by path-sensitive abstract interpretation + evaluation of the extracted guards on "
       "enumerated scenarios against a catalogue oracle; AST def-use for the traversal; returned-term membership", "DESIGN.md#c14")
+
+claim("C18",
+      "Static decision on nixio/cmd/upgrade.py, every abstract path: for a file older than the library collect_tasks "
+      "runs every step's own inspection of the file, schedules each conversion exactly when that inspection found work "
+      "(never depending on another step), and appends the version bump exactly once and last; an up-to-date file gets "
+      "an empty task list; process_tasks calls the tasks in list order once each; only the version task writes the "
+      "format version; every conversion closure re-inspects its object before its first write and has a skipping path; "
+      "the alias-dimension conversion creates the link with id, type, index and the hard link to the parent array "
+      "before it deletes the alias link, after which the collector's predicate is false; the property conversion reads "
+      "all eight old fields and each one reaches what is written (unless found empty), replaces the dataset under the "
+      "same name, and chooses between keeping all per-value extras or a single one by exact comparison. NOT decided: "
+      "content equality before/after on real files, behaviour of an interruption inside one HDF5 call.",
+      "returned-list / scheduling decisions, must-precede and read-to-write data flow on all abstract paths (raw h5py "
+      "mode of the path-sensitive abstract interpreter); who-may-write over the resolved call graph", "DESIGN.md#c18")
